@@ -36,6 +36,7 @@ import signal
 import subprocess
 import threading
 import time
+from concurrent.futures import ThreadPoolExecutor
 
 from pylib import tlc
 from pylib.common import mktmp, rng, use_repo
@@ -69,7 +70,7 @@ __verif_probe() {
 __verif_probe
 '''
 
-SCENARIO_TIMEOUT = 60  # s; a transfer normally takes ~1 s
+SCENARIO_TIMEOUT = 120  # s; a transfer normally takes ~1 s (generous: the box may be heavily loaded)
 
 
 class Watchdog(Exception):
@@ -410,23 +411,32 @@ def mc_cfg(counting, unit, maxseq, live=True):
 
 
 def design_runs(ck, out):
-    """TLC on the design (runs beside the daemon work)."""
-    try:
-        ms = ck.pick(0, 2)
-        out.append(("mc", f"MC:EnvTransfer_MC count=bytes reader=byte MaxSeq={ms}",
-                    tlc.run("EnvTransfer_MC", cfg_text=mc_cfg("bytes", "byte", ms), workers=ck.pick(2, 4), timeout=ck.pick(200, 800))))
-        out.append(("guard", "MC:EnvTransfer_MC count=chars reader=byte (must fail)",
-                    tlc.run("EnvTransfer_MC", cfg_text=mc_cfg("chars", "byte", ck.pick(0, 1)), workers=2, timeout=ck.pick(200, 800))))
-        if not ck.quick:
-            out.append(("mc", "MC:EnvTransfer_MC count=chars reader=char MaxSeq=1",
-                        tlc.run("EnvTransfer_MC", cfg_text=mc_cfg("chars", "char", 1), workers=4, timeout=800)))
-            out.append(("guard", "MC:EnvTransfer_MC count=bytes reader=char (must fail)",
-                        tlc.run("EnvTransfer_MC", cfg_text=mc_cfg("bytes", "char", 1), workers=2, timeout=800)))
-        out.append(("laws", f"Laws:EnvTransfer_Laws",
-                    tlc.run("EnvTransfer_Laws", cfg_text=f"CONSTANTS\n MaxLen = {ck.pick(3, 4)}\n MaxBytes = {ck.pick(3, 4)}\n",
-                            assume_only=True, timeout=ck.pick(200, 800))))
-    except BaseException as e:  # re-raised in the main thread
-        out.append(("error", str(e), None))
+    """TLC on the design; the runs go side by side, beside the daemon work."""
+    ms = ck.pick(0, 2)
+    jobs = [
+        ("mc", f"MC:EnvTransfer_MC count=bytes reader=byte MaxSeq={ms}",
+         lambda: tlc.run("EnvTransfer_MC", cfg_text=mc_cfg("bytes", "byte", ms), workers=ck.pick(2, 4), timeout=ck.pick(200, 800), deadlock=True)),
+        ("guard", "MC:EnvTransfer_MC count=chars reader=byte (must fail)",
+         lambda: tlc.run("EnvTransfer_MC", cfg_text=mc_cfg("chars", "byte", ck.pick(0, 1)), workers=2, timeout=ck.pick(200, 800))),
+        ("laws", "Laws:EnvTransfer_Laws",
+         lambda: tlc.run("EnvTransfer_Laws", cfg_text=f"CONSTANTS\n MaxLen = {ck.pick(3, 4)}\n MaxBytes = {ck.pick(3, 4)}\n",
+                         assume_only=True, timeout=ck.pick(200, 800))),
+    ]
+    if not ck.quick:
+        jobs.append(("mc", "MC:EnvTransfer_MC count=chars reader=char MaxSeq=1",
+                     lambda: tlc.run("EnvTransfer_MC", cfg_text=mc_cfg("chars", "char", 1), workers=2, timeout=800, deadlock=True)))
+        # the starved reader is a deadlock (pylib.tlc does not recognise this TLC's liveness message)
+        jobs.append(("guard", "MC:EnvTransfer_MC count=bytes reader=char (must deadlock)",
+                     lambda: tlc.run("EnvTransfer_MC", cfg_text=mc_cfg("bytes", "char", 1, live=False), workers=2, timeout=800, deadlock=True)))
+
+    def one(job):
+        try:
+            return job[0], job[1], job[2]()
+        except BaseException as e:  # re-raised in the main thread
+            return "error", str(e), None
+
+    with ThreadPoolExecutor(len(jobs)) as ex:
+        out.extend(ex.map(one, jobs))
 
 
 def run(ck):
@@ -446,7 +456,7 @@ def run(ck):
     design = []
     th = None
     if not ck.replay_case:
-        th = threading.Thread(target=design_runs, args=(ck, design))
+        th = threading.Thread(target=design_runs, args=(ck, design), daemon=True)
         th.start()
         cases = ck.export("EnvTransfer_Export", cfg_text=f"CONSTANTS\n MaxLen = {ck.pick(2, 3)}\n MaxWord = {ck.pick(2, 3)}\n",
                           timeout=ck.pick(120, 600))
@@ -454,8 +464,14 @@ def run(ck):
         values = sorted("".join(chr(c) for c in x["cp"]) for x in cases if x["k"] == "val")
         words = sorted((x["w"] for x in cases if x["k"] == "word"), key=lambda w: (len(w), w))
         ck.exhaustive = True
-        scs = pack(values, modes, ck.pick(48, 60), "export", r_)
-        scs += random_scenarios(r_, ck.pick(9, 300), modes)
+        scs = pack(values, modes, ck.pick(64, 60), "export", r_)
+        scs += random_scenarios(r_, ck.pick(6, 300), modes)
+        if not ck.quick:  # payloads larger than the pipe buffer
+            big = "".join(r_.choice(["q", " ", "'", "\\", "é", "\n", '"', "$"]) for _ in range(70000))
+            for mode in modes:
+                scs.append(dict(mode=mode, vars=[dict(name="BIG_1", kind="str", val=big, elems=[], exported=True),
+                                                 dict(name="big_2", kind="seq", val="", elems=[big[:30000], "", big[30000:]], exported=False)],
+                                stray=["STRAY_big"], src="export"))
     else:
         d = ck.replay_case["detail"]
         words = []
